@@ -43,6 +43,13 @@ func TestKnownEncodings(t *testing.T) {
 		{DSRead(OpDSReadB32, V(1), V(2), 4), "04006cd802000001"},                            // ds_read_b32 v1, v2 offset:4
 		{MkVOP3a(449, V(0), V(1), V(2), V(3)), "0000c1d101050e04"},                          // v_mad_f32 v0, v1, v2, v3
 		{GlobalLoad(OpFlatLoadDword, V(1), VRange(2, 2), Off, 4), "048050dc02007f01"},       // global_load_dword v1, v[2:3], off offset:4
+		// LLVM MC (vop_sdwa.s, vop_dpp.s, gfx90a packed fp32, gfx9 smem)
+		{MkVOP1(1, V(1), V(2)).WithSDWA(SDWA{DstSel: SelByte0, DstUnused: UnusedPreserve, Src0Sel: SelDWord}), "f902027e02100600"},                // v_mov_b32_sdwa v1, v2 dst_sel:BYTE_0 dst_unused:UNUSED_PRESERVE src0_sel:DWORD
+		{Desc{Format: VOP1, Opcode: 1, Dst: V(0), Src0: V(0), DPP: &DPP{Ctrl: 0x58, BankMask: 0xf, RowMask: 0xf}}, "fa02007e005800ff"},            // v_mov_b32_dpp v0, v0 quad_perm:[0,2,1,1] row_mask:0xf bank_mask:0xf
+		{Desc{Arch: CDNA3, Format: VOP3P, Opcode: 50, Dst: VRange(0, 2), Src0: VRange(2, 2), Src1: VRange(4, 2), OpSelHi: 7}, "0040b2d302090218"}, // v_pk_add_f32 v[0:1], v[2:3], v[4:5]
+		{SMEMLoadImm(OpSLoadDword, S(5), SRange(2, 2), 0x10).For(CDNA3), "410102c010000000"},                                                      // s_load_dword s5, s[2:3], 0x10
+		{MkVOP3b(481, VRange(0, 2), VCC, VRange(2, 2), VRange(4, 2), VRange(6, 2)), "006ae1d102091a04"},                                           // v_div_scale_f64 v[0:1], vcc, v[2:3], v[4:5], v[6:7]
+		{MkVOP3a(0xca, SRange(10, 2), V(1), Imm(0), Operand{}), "0a00cad001010100"},                                                               // v_cmp_eq_u32_e64 s[10:11], v1, 0
 	}
 	for _, c := range cases {
 		b, err := Encode(c.d)
